@@ -537,3 +537,220 @@ def sib1_point(cfg, accounting=True):
                          key='SIB-1p:%s' % name, config=cfg.name)
     res.floor('function pairs', 22)
     return res
+
+
+# ---- ITER-4: direction table (absolute; catches a mistake made consistently in db and olc_db) ---------------------------
+FWD_CALLS = {'next', 'try_next', 'begin', 'left_most_traversal', 'try_left_most_traversal', 'gte_key_byte', 'first', 'try_first'}
+REV_CALLS = {'prior', 'try_prior', 'last', 'right_most_traversal', 'try_right_most_traversal', 'lte_key_byte', 'try_last'}
+PURE = {'first': 'fwd', 'try_first': 'fwd', 'last': 'rev', 'try_last': 'rev', 'next': 'fwd', 'try_next': 'fwd', 'prior': 'rev', 'try_prior': 'rev',
+        'left_most_traversal': 'fwd', 'try_left_most_traversal': 'fwd', 'right_most_traversal': 'rev', 'try_right_most_traversal': 'rev'}
+
+
+def _dir_call(f, e):
+    """'fwd' / 'rev' / None for an iterator- or node-level enumeration call"""
+    if e.get('k') != 'call' or is_assert_elem(e):
+        return None
+    nm = e.get('name')
+    cls = e.get('cls') or ''
+    if not (ITER_CLS.match(cls) or 'basic_inode' in cls or 'inode_' in cls):
+        return None
+    if nm in ('last',) and not ('basic_inode' in cls or 'inode_' in cls or ITER_CLS.match(cls)):
+        return None
+    if nm in FWD_CALLS:
+        return 'fwd'
+    if nm in REV_CALLS:
+        return 'rev'
+    return None
+
+
+def iter4(cfg):
+    res = RuleResult('ITER-4', 'direction table of the iterators (db and olc_db alike): first / next / left-most traversal use only the forward primitives (node begin / next, left-most descent), last / prior / right-most traversal only the backward ones; in seek every primitive is guarded by the direction flag and the comparison sign the table demands: forward = gte_key_byte, then left-most descent, fall-off next(); prefix mismatch forward: key below the node -> left-most, key above -> right-most then next(); at a leaf forward: key < leaf -> stay, else next(); the mirror image for reverse')
+    for f in [g for g in cfg.functions if g.blocks and ITER_CLS.match(g.cls)]:
+        if f.short in PURE:
+            # the OLC wrappers first()/next()... only loop over try_*; they are pure too
+            want = PURE[f.short]
+            res.count('single-direction iterator functions')
+            res.functions.add(f.sig)
+            bad = None
+            n = 0
+            for b, i, e in f.elements():
+                d = _dir_call(f, e)
+                if d is None:
+                    continue
+                # the re-seek of the OLC step functions names the direction by a flag, handled by RESEEK-1
+                n += 1
+                if d != want and bad is None:
+                    bad = e
+            ok = bad is None
+            res.ob(ok, {'rule': 'ITER-4', 'function': sh(f.name)[:80], 'direction': want, 'primitive_calls': n, 'verdict': 'discharged' if ok else 'VIOLATION'})
+            if not ok:
+                res.find(f, bad.get('loc'), '%s is a %s function but calls the %s primitive %s(): the iterator would move the wrong way (entries visited twice, out of order, or skipped)' % (f.short, 'forward' if want == 'fwd' else 'backward', 'backward' if want == 'fwd' else 'forward', bad.get('name')), key='ITER-4:%s:%s' % (f.short, bad.get('name')), config=cfg.name)
+            continue
+        if f.short not in ('seek', 'try_seek') or (f.short == 'seek' and 'olc_db' in f.cls):
+            continue
+        res.count('seek functions')
+        res.functions.add(f.sig)
+        fwdp = [p for p in f.params if p.get('name') == 'fwd' or (p.get('t') == 'bool' and p.get('name') not in ('match',))]
+        fwdp = [p for p in fwdp if 'bool' == (p.get('t') or '').replace('const ', '')]
+        if len(fwdp) != 1:
+            res.incompl('ITER-4: direction flag of %s not identified' % sh(f.name)[:60])
+            continue
+        fd = fwdp[0]['did']
+        inits = _decl_inits(f)
+        problems = []
+        n = 0
+        for b, i, e in f.elements():
+            d = _dir_call(f, e)
+            if d is None:
+                continue
+            n += 1
+            conds = control_conditions(f, b)
+            fwd = None
+            sign = None       # sign of (search key - node/leaf): 'lt' / 'gt' known from `cmp_ < 0` / `cmp_ > 0` tests
+            for c, val, cb in conds:
+                if isinstance(c, dict) and c.get('k') == 'ref' and c.get('did') == fd:
+                    fwd = val
+                if isinstance(c, dict) and c.get('k') == 'binop' and c.get('op') in ('<', '>') and isinstance(f.strip_casts(c['r']), dict) and f.strip_casts(c['r']).get('k') == 'int' and int(f.strip_casts(c['r']).get('v', 1)) == 0:
+                    lt = (c['op'] == '<') == bool(val)
+                    sign = 'lt' if lt else 'ge'
+                    if c['op'] == '>':
+                        sign = 'gt' if val else 'le'
+            nm = e.get('name')
+            # conditional-operator form `(cmp_ < 0) ? *this : next()`: the call sits in the false arm of the ternary block
+            if fwd is None:
+                problems.append((e, '%s() is not guarded by the direction flag' % nm))
+                continue
+            want = 'fwd' if fwd else 'rev'
+            node_level = nm in ('gte_key_byte', 'lte_key_byte')
+            step = nm in ('next', 'try_next', 'prior', 'try_prior')
+            trav = 'traversal' in nm
+            if node_level or step:
+                if d != want:
+                    problems.append((e, '%s() is called on the %s branch' % (nm, 'forward' if fwd else 'reverse')))
+            elif trav:
+                # which traversal is right depends on the comparison: key below the node -> left-most, above -> right-most;
+                # without a sign test (after gte/lte found a child) it is the direction's own descent
+                if sign in ('lt',):
+                    exp = 'fwd'
+                elif sign in ('ge', 'gt'):
+                    exp = 'rev'
+                else:
+                    exp = want
+                # sign tests further up that do not concern this region: only accept the two readings
+                if d != exp and not (sign is not None and d == want and False):
+                    problems.append((e, '%s() is taken on the %s branch where the key orders %s the node: the table demands the %s descent' % (nm, 'forward' if fwd else 'reverse', {'lt': 'before', 'ge': 'after', 'gt': 'after', 'le': 'before', None: 'within'}[sign], 'left-most' if exp == 'fwd' else 'right-most')))
+        # an opposite-direction descent (forward: right-most of a node the key orders after) lands on the neighbour on the
+        # WRONG side of the key; it must be followed by one step in the seek direction
+        from ..engine import reachable_from
+        calls_ = [(b, i, e, _dir_call(f, e)) for b, i, e in f.elements() if _dir_call(f, e) is not None]
+
+        def guards(b):
+            fw = sg = None
+            for c, val, cb in control_conditions(f, b):
+                if isinstance(c, dict) and c.get('k') == 'ref' and c.get('did') == fd:
+                    fw = val
+                if isinstance(c, dict) and c.get('k') == 'binop' and c.get('op') in ('<', '>') and isinstance(f.strip_casts(c['r']), dict) and f.strip_casts(c['r']).get('k') == 'int':
+                    sg = ((c['op'] == '<') == bool(val))      # True: key orders before
+            return fw, sg
+        for b, i, e, d in calls_:
+            if 'traversal' not in (e.get('name') or ''):
+                continue
+            fw, sg = guards(b)
+            if fw is None or d == ('fwd' if fw else 'rev'):
+                continue
+            want = 'fwd' if fw else 'rev'
+            reach = reachable_from(f, b, True)
+            follow = [x for x in calls_ if x[2].get('name') in ('next', 'try_next', 'prior', 'try_prior') and x[3] == want and (x[0] in reach) and (x[0] != b or x[1] > i) and guards(x[0]) == (fw, sg)]
+            if not follow:
+                problems.append((e, '%s() on the %s branch is not followed by a %s step: the descent lands on the neighbour on the wrong side of the search key' % (e.get('name'), 'forward' if fw else 'reverse', 'next()' if fw else 'prior()')))
+        ok = not problems
+        res.ob(ok, {'rule': 'ITER-4', 'function': sh(f.name)[:80], 'primitive_calls': n, 'verdict': 'discharged' if ok else 'VIOLATION'})
+        for e, why in problems[:2]:
+            res.find(f, e.get('loc'), '%s: %s - seek would land on the wrong neighbour of the search key, so a scan starts before / after the bound or misses its first entries' % (f.short, why), key='ITER-4:%s:%s' % (f.short, e.get('name')), config=cfg.name)
+    res.floor('single-direction iterator functions', 24)
+    res.floor('seek functions', 4)
+    return res
+
+
+def iter5(cfg):
+    """ITER-5: net stack effect of the step functions (absolute)"""
+    res = RuleResult('ITER-5', 'net stack effect of next / prior (db) and try_next / try_prior (olc_db), per path of one loop iteration: a path that ends in the descent towards the next / prior leaf leaves the stack depth unchanged before the descent (the parent entry is replaced: as many pushes as pops, at most one each) and fetches the child after asking the node for the sibling in the step\'s own direction; a path that goes round the loop has removed exactly one entry (the leaf, or a parent without a further child)')
+    DIRS = {'next': ('node.next', 'it.left_most_traversal'), 'try_next': ('node.next', 'it.left_most_traversal'), 'prior': ('node.prior', 'it.right_most_traversal'), 'try_prior': ('node.prior', 'it.right_most_traversal')}
+    for f in [g for g in cfg.functions if g.blocks and ITER_CLS.match(g.cls)]:
+        if f.short not in DIRS or (('olc_db' in f.cls) != f.short.startswith('try_')):
+            continue
+        nl, tr = DIRS[f.short]
+        res.count('step functions')
+        res.functions.add(f.sig)
+        got = path_classes(f)
+        problems = []
+        descents = 0
+        for p in sorted(got):
+            pops, pushes = p.count('it.pop'), p.count('it.push')
+            if p and p[-1] == '<loop>':
+                if pops - pushes != 1:
+                    problems.append('a path that goes round the loop changes the stack depth by %+d instead of -1 (%s)' % (pushes - pops, ' '.join(p)))
+            elif any('traversal' in x for x in p):
+                descents += 1
+                if pushes != pops or pushes > 1:
+                    problems.append('the path into the descent changes the stack depth by %+d (pops %d, pushes %d) instead of replacing the parent entry (%s)' % (pushes - pops, pops, pushes, ' '.join(p)))
+                if nl not in p or 'node.get_child' not in p or p.index(nl) > p.index('node.get_child'):
+                    problems.append('the path into the descent does not ask the node for the sibling (%s) before fetching the child (%s)' % (nl.split('.')[1], ' '.join(p)))
+                if tr not in p:
+                    problems.append('the descent is not %s (%s)' % (tr.split('.')[1], ' '.join(p)))
+            elif p:
+                # returns without descent: only the empty-stack exit (no events)
+                if pops or pushes:
+                    problems.append('a path returns after touching the stack without a descent (%s)' % ' '.join(p))
+        if descents == 0:
+            res.incompl('ITER-5: %s has no path into a descent' % sh(f.name)[:60])
+            continue
+        ok = not problems
+        res.ob(ok, {'rule': 'ITER-5', 'function': sh(f.name)[:80], 'path_classes': len(got), 'verdict': 'discharged' if ok else 'VIOLATION'})
+        if not ok:
+            res.find(f, f.loc, '%s: %s - the stack no longer describes the path to the current leaf, so later steps skip or repeat entries' % (f.short, '; '.join(problems[:2])), key='ITER-5:%s' % f.short, config=cfg.name)
+    # traversals and seek: every inner node on the path is pushed exactly once, the final leaf exactly once
+    TRAV = {'left_most_traversal': 'node.begin', 'try_left_most_traversal': 'node.begin', 'right_most_traversal': 'node.last', 'try_right_most_traversal': 'node.last'}
+    for f in [g for g in cfg.functions if g.blocks and ITER_CLS.match(g.cls)]:
+        if f.short in TRAV:
+            res.count('traversal functions')
+            res.functions.add(f.sig)
+            got = path_classes(f)
+            problems = []
+            for p in sorted(got):
+                if p and p[-1] == '<loop>':
+                    if p.count('it.push') != 1 or p.count('it.pop') or TRAV[f.short] not in p or 'node.get_child' not in p:
+                        problems.append('a descent step must ask the node for its %s child, push that entry once and fetch the child (%s)' % ('first' if 'begin' in TRAV[f.short] else 'last', ' '.join(p)))
+                elif p.count('it.push_leaf') != 1 or p.count('it.push') or p.count('it.pop'):
+                    problems.append('the traversal must end by pushing the leaf exactly once (%s)' % (' '.join(p) or 'nothing'))
+            ok = not problems
+            res.ob(ok, {'rule': 'ITER-5', 'function': sh(f.name)[:80], 'path_classes': len(got), 'verdict': 'discharged' if ok else 'VIOLATION'})
+            if not ok:
+                res.find(f, f.loc, '%s: %s - the stack no longer describes the path to the leaf' % (f.short, '; '.join(problems[:2])), key='ITER-5:%s' % f.short, config=cfg.name)
+        elif (f.short == 'seek' and 'olc_db' not in f.cls) or f.short == 'try_seek':
+            res.count('seek functions')
+            res.functions.add(f.sig)
+            got = path_classes(f)
+            problems = []
+            for p in sorted(got):
+                if not p or p[0] != 'it.invalidate':
+                    problems.append('seek must clear the stack first (%s)' % (' '.join(p) or 'nothing'))
+                    continue
+                body = p[1:]
+                if body and body[-1] == '<loop>':
+                    if body.count('it.push') != 1:
+                        problems.append('a descent step of seek must push the node exactly once (%s)' % ' '.join(body))
+                elif any(x in body for x in ('node.gte_key_byte', 'node.lte_key_byte')) and any('traversal' in x for x in body):
+                    if body.count('it.push') != 1 or body.index('it.push') > [k for k, x in enumerate(body) if 'traversal' in x][0]:
+                        problems.append('the node is not pushed exactly once before the descent into the child found by gte/lte_key_byte (%s)' % ' '.join(body))
+                elif 'leaf.cmp' in body:
+                    if body.count('it.push_leaf') != 1 or body.index('it.push_leaf') > body.index('leaf.cmp') + 10:
+                        problems.append('the leaf reached by seek is not pushed exactly once (%s)' % ' '.join(body))
+            ok = not problems
+            res.ob(ok, {'rule': 'ITER-5', 'function': sh(f.name)[:80], 'path_classes': len(got), 'verdict': 'discharged' if ok else 'VIOLATION'})
+            if not ok:
+                res.find(f, f.loc, '%s: %s - the stack no longer describes the path to the current leaf' % (f.short, '; '.join(problems[:2])), key='ITER-5:%s' % f.short, config=cfg.name)
+    res.floor('step functions', 8)
+    res.floor('traversal functions', 8)
+    res.floor('seek functions', 4)
+    return res
